@@ -672,6 +672,23 @@ func GenSchedPlan(seed uint64, idx int, prop string) *plan.SchedPlan {
 		p.Primed = append(p.Primed, r.Chance(0.4))
 		base[i] = di
 	}
+	// a filter is meant for a container type "or its element type": give it a
+	// sibling container of the same kind (array, slice, map) but another
+	// element type to be executed on as well
+	siblings := map[string][]string{
+		"coll:array": {"coll:arrayptr", "coll:arrayany", "coll:arraymap"}, "coll:arrayptr": {"coll:array", "coll:arrayany"}, "coll:arrayany": {"coll:array", "coll:arraymap"}, "coll:arraymap": {"coll:array", "coll:arrayany"},
+		"coll:slice": {"coll:ptrslice", "coll:jsonlist", "coll:anys", "coll:named"}, "coll:ptrslice": {"coll:slice", "coll:anys"}, "coll:named": {"coll:slice"}, "coll:jsonlist": {"coll:slice", "coll:anys"}, "coll:anys": {"coll:slice", "coll:jsonlist"},
+		"coll:map": {"coll:ptrmap", "coll:anymap", "coll:intmap", "coll:namedmap"}, "coll:ptrmap": {"coll:map", "coll:anymap"}, "coll:anymap": {"coll:map", "coll:ptrmap"}, "coll:namedmap": {"coll:map"}, "coll:intmap": {"coll:map"},
+	}
+	sibOf := map[int]int{}
+	for i, o := range p.Objects {
+		if o.Kind == "filter" && r.Chance(0.6) {
+			if sibs := siblings[p.Data[base[i]].Gen]; len(sibs) > 0 {
+				p.Data = append(p.Data, DatumSpec{Gen: sibs[r.Intn(len(sibs))], Seed: r.Uint64() % 1000000})
+				sibOf[i] = len(p.Data) - 1
+			}
+		}
+	}
 	for t := 0; t < k; t++ {
 		var ops []plan.SOp
 		n := r.Range(1, 6)
@@ -691,6 +708,9 @@ func GenSchedPlan(seed uint64, idx int, prop string) *plan.SchedPlan {
 				di = base[oi]
 				if r.Chance(0.15) {
 					di = r.Intn(nData)
+				}
+				if sd, ok := sibOf[oi]; ok && r.Chance(0.4) {
+					di = sd
 				}
 			} else if nLocal == 0 {
 				x = 0.75 // nothing to call yet: create first
